@@ -37,9 +37,14 @@ import (
 // files rewritten per property (relative to the repository root)
 var astFiles = map[string][]string{
 	"C08": {"pkg/app/fs.go"},
+	"C10": {"pkg/app/client/client.go"},
 	"C15": {"pkg/app/server/binding/internal/decoder/tag.go", "pkg/app/server/binding/internal/decoder/decoder.go",
 		"pkg/app/server/binding/internal/decoder/getter.go", "pkg/app/server/binding/default.go"},
 }
+
+// properties whose rewritten files take objects from sync.Pools ("if v == nil { v = new... }"): with inserted
+// yields the number of scheduling points then depends on pool hits
+var astPoolSensitive = map[string]bool{"C08": true, "C15": true}
 
 const verifhookPath = "github.com/cloudwego/hertz/pkg/common/verifhook"
 
@@ -216,7 +221,6 @@ func rewriteFile(src string) ([]byte, int, int, error) {
 	// comments are dropped: their positions no longer fit the new statement lists
 	f.Comments = nil
 	var buf bytes.Buffer
-	buf.WriteString("//go:build verif\n\n")
 	if err := printer.Fprint(&buf, fset, f); err != nil {
 		return nil, 0, 0, err
 	}
